@@ -201,6 +201,25 @@ def lattice_c03(ctx):
         why = _judge(vals, ubt, 'sig_relaxation of e^-x1 + e^-x2 + .25 e^(x1+x2) over {x1 + x2 <= 1, x >= -1} written in five ways', [list(vals)], [])
         if why:
             return why, nsolves
+        # a box with a shifted centre written with abs(x - centre) <= radius against the same box written with bounds
+        from sageopt.coniclifts.operators.abs import abs as cl_abs_
+        ctrb, radb = np.array([1.0, 0.5]), np.array([1.0, 1.0])
+        def box_dom(form):
+            xb = cl.Variable(shape=(2,), name='lat_absbox_x_' + form)
+            if form == 'abs(x - c) <= r':
+                c_ = [cl_abs_(xb - ctrb) <= radb]
+            elif form == 'abs(c - x) <= r':
+                c_ = [cl_abs_(ctrb - xb) <= radb]
+            else:
+                c_ = [xb <= ctrb + radb, xb >= ctrb - radb]
+            return SigDomain(2, coniclifts_cons=c_)
+        fb = y2[0] ** -1 + y2[1] + y2[1] ** -1
+        ubb = min(float(fb(np.array([a, b]))) for a in np.linspace(0, 2, 41) for b in np.linspace(-0.5, 1.5, 41))
+        vals = {(fm, form): _solve(lambda: ss.sig_relaxation(fb, box_dom(form), fm)) for fm in ('primal', 'dual') for form in ('abs(x - c) <= r', 'abs(c - x) <= r', 'bounds')}
+        nsolves += 6
+        why = _judge(vals, ubb, 'sig_relaxation of e^-x1 + e^x2 + e^-x2 over the box [0,2] x [-.5,1.5] written with abs and with bounds', [list(vals)], [])
+        if why:
+            return why, nsolves
         def exp_dom(form):
             xe_ = cl.Variable(shape=(2,), name='lat_exps_x_' + form)
             if form == 'shifted exponents':
